@@ -1055,7 +1055,7 @@ static int parse_container(struct scanner_s *scanner, cif_container_tp *containe
                              scanner->column - TVALUE_LENGTH(scanner), TVALUE_START(scanner),
                              TVALUE_LENGTH(scanner), scanner->user_data);
                         /* recover, if so directed, by acting as if max_frame_depth were 1 */
-                        if (!is_block) {
+                        if ((result != CIF_OK) || !is_block) {
                             goto container_end;
                         }
                     } else if ((scanner->max_frame_depth == 1) && !is_block) {
